@@ -3,7 +3,7 @@ from fractions import Fraction as Fr
 import itertools
 from symnp import core
 from symnp.core import band, bor, bnot, iff, implies
-from .common import x_patterns, sublists, POOL, slice_points
+from .common import x_patterns, sublists, POOL, slice_points, get_curve
 
 PROPERTY = 'C08'
 FUNCTIONS = ['postprocessing.filter_worst_knees', 'postprocessing.filter_corner_knees', 'postprocessing.filter_clusters', 'postprocessing.add_points_even', 'rdp.mapping',
@@ -31,6 +31,9 @@ def cases(tier, seed):
                     if q and ((si + di + ci) % 2 != 0 or s in ('mp_grdp', 'min_point_rdp')):
                         continue
                     out.append(dict(fn='whole', curve=ci, pos=pos, simplifier=s, detector=d, int_range=[-3, 8]))
+    for d in ('lmethod', 'dfdt', 'kneedle'):      # min_point_rdp on its fixed-size fall-back (no threshold keeps min_points points)
+        for pos in ([[]] if q else [[], [7]]):
+            out.append(dict(fn='whole', curve='elbow9', pos=pos, simplifier='min_point_rdp', detector=d, int_range=[-3, 8]))
     n = 7 if q else 8
     xs = x_patterns(n, tier, seed, quick_k=2, thorough_k=2)[-1]
     links = ['single_linkage', 'average_linkage'] if q else ['single_linkage', 'complete_linkage', 'centroid_linkage', 'average_linkage']
@@ -103,7 +106,7 @@ def run(h, case):
         final = post_stages(h, pts, ra, red, removed, knees, X, Y, getattr(L.clustering, case['linkage']), case['mode'], tc, tk)
         h.prove(not h.writes(), 'arguments unmodified')
         return final
-    X, Y = slice_points(h, POOL[case['curve']], case['pos'])
+    X, Y = slice_points(h, get_curve(case['curve']), case['pos'])
     n = len(X)
     pts = h.argument(h.array([[a, b] for a, b in zip(X, Y)]))
     rdp = L.rdp
